@@ -154,12 +154,22 @@ def Contiguous {φ : Type} : Nat → List (φ × Nat × Nat) → Nat → Prop
   | s, [], e => s = e
   | s, v :: r, e => v.2.1 = s ∧ v.2.1 ≤ v.2.2 ∧ Contiguous v.2.2 r e
 
-theorem parse_fold {φ : Type} (filt : Option PySliceT) (files : List (φ × Option Nat)) (st : Parsed φ) :
+theorem dictSet_fresh {φ : Type} [DecidableEq φ] (d : List (φ × Nat × Nat)) (f : φ) (v : Nat × Nat)
+    (h : f ∉ d.map (·.1)) : dictSet d f v = d ++ [(f, v)] := by
+  unfold dictSet
+  have : d.any (fun x => x.1 == f) = false := by
+    rw [List.any_eq_false]
+    intro x hx hxf
+    exact h (List.mem_map.mpr ⟨x, hx, by simpa using hxf⟩)
+  simp [this]
+
+/-- `self.data` and the slice counter do not depend on the `dict`: unconditional -/
+theorem parse_fold_data {φ : Type} [DecidableEq φ] (filt : Option PySliceT) (files : List (φ × Option Nat))
+    (st : Parsed φ) :
     (files.foldl (parseStep filt) st).data = st.data ++ dataOf filt (readable files) ∧
-    (files.foldl (parseStep filt) st).vols = st.vols ++ volsFrom filt st.cur (readable files) ∧
     (files.foldl (parseStep filt) st).cur = st.cur + (dataOf filt (readable files)).length := by
   induction files generalizing st with
-  | nil => simp [readable, dataOf, volsFrom]
+  | nil => simp [readable, dataOf]
   | cons x xs ih =>
     obtain ⟨f, o⟩ := x
     cases o with
@@ -170,18 +180,57 @@ theorem parse_fold {φ : Type} (filt : Option PySliceT) (files : List (φ × Opt
     | some n =>
       have e : readable ((f, some n) :: xs) = (f, n) :: readable xs := by simp [readable]
       rw [List.foldl_cons, e]
-      obtain ⟨h1, h2, h3⟩ := ih (parseStep filt st (f, some n))
-      refine ⟨?_, ?_, ?_⟩
+      obtain ⟨h1, h3⟩ := ih (parseStep filt st (f, some n))
+      refine ⟨?_, ?_⟩
       · rw [h1]; simp [parseStep, dataOf]
-      · rw [h2]; simp [parseStep, volsFrom, numSlices_eq_length]
       · rw [h3]; simp [parseStep, dataOf, numSlices_eq_length]; omega
 
-theorem parse_spec {φ : Type} (files : List (φ × Option Nat)) (filt : Option PySliceT) :
+/-- with distinct file names the `dict` is filled by appending -/
+theorem parse_fold {φ : Type} [DecidableEq φ] (filt : Option PySliceT) (files : List (φ × Option Nat))
+    (st : Parsed φ) (hnd : (st.vols.map (·.1) ++ (readable files).map (·.1)).Nodup) :
+    (files.foldl (parseStep filt) st).vols = st.vols ++ volsFrom filt st.cur (readable files) := by
+  induction files generalizing st with
+  | nil => simp [readable, volsFrom]
+  | cons x xs ih =>
+    obtain ⟨f, o⟩ := x
+    cases o with
+    | none =>
+      have e : readable ((f, none) :: xs) = readable xs := by simp [readable]
+      rw [List.foldl_cons, e]
+      rw [e] at hnd
+      exact ih st hnd
+    | some n =>
+      have e : readable ((f, some n) :: xs) = (f, n) :: readable xs := by simp [readable]
+      rw [List.foldl_cons, e]
+      rw [e] at hnd
+      have hf : f ∉ st.vols.map (·.1) := by
+        intro hmem
+        rw [List.nodup_append] at hnd
+        exact hnd.2.2 f hmem f (by simp) rfl
+      have hv : (parseStep filt st (f, some n)).vols = st.vols ++ [(f, st.cur, st.cur + numSlices filt n)] := by
+        simp only [parseStep]
+        exact dictSet_fresh _ _ _ hf
+      have hc : (parseStep filt st (f, some n)).cur = st.cur + numSlices filt n := by simp [parseStep]
+      have hnd' : ((parseStep filt st (f, some n)).vols.map (·.1) ++ (readable xs).map (·.1)).Nodup := by
+        rw [hv]
+        simpa [List.append_assoc] using hnd
+      rw [ih (parseStep filt st (f, some n)) hnd', hv, hc]
+      simp [volsFrom, numSlices_eq_length]
+
+theorem parse_spec {φ : Type} [DecidableEq φ] (files : List (φ × Option Nat)) (filt : Option PySliceT)
+    (hnd : ((readable files).map (·.1)).Nodup) :
     (parseFilenames files filt).data = dataOf filt (readable files) ∧
     (parseFilenames files filt).vols = volsFrom filt 0 (readable files) ∧
     (parseFilenames files filt).cur = (dataOf filt (readable files)).length := by
-  have := parse_fold filt files ({} : Parsed φ)
-  simpa [parseFilenames] using this
+  have h1 := parse_fold_data filt files ({} : Parsed φ)
+  have h2 := parse_fold filt files ({} : Parsed φ) (by simpa using hnd)
+  refine ⟨by simpa [parseFilenames] using h1.1, by simpa [parseFilenames] using h2, by simpa [parseFilenames] using h1.2⟩
+
+/-- `self.data` is the specification list for every list of files, duplicates included -/
+theorem parse_data_spec {φ : Type} [DecidableEq φ] (files : List (φ × Option Nat)) (filt : Option PySliceT) :
+    (parseFilenames files filt).data = dataOf filt (readable files) := by
+  have h1 := parse_fold_data filt files ({} : Parsed φ)
+  simpa [parseFilenames] using h1.1
 
 theorem volsFrom_length {φ : Type} (filt : Option PySliceT) (c : Nat) (vs : List (φ × Nat)) :
     (volsFrom filt c vs).length = vs.length := by
@@ -570,6 +619,99 @@ theorem mem_pyRange_neg (a b st x : Int) (hst : st < 0) :
     · rw [Int.toNat_of_nonneg hq0]
       have : q * st = -(-st * q) := by rw [Int.neg_mul, Int.neg_neg, Int.mul_comm]
       omega
+
+
+/-! ### sorting the directory listing -/
+theorem insertSorted_perm {φ : Type} (le : φ → φ → Bool) (x : φ) (l : List φ) :
+    (insertSorted le x l).Perm (x :: l) := by
+  induction l with
+  | nil => exact List.Perm.refl _
+  | cons y ys ih =>
+    unfold insertSorted
+    split
+    · exact List.Perm.refl _
+    · exact ((List.Perm.cons y ih).trans (List.Perm.swap x y ys))
+
+theorem sortFiles_perm {φ : Type} (le : φ → φ → Bool) (l : List φ) : (sortFiles le l).Perm l := by
+  induction l with
+  | nil => exact List.Perm.refl _
+  | cons x xs ih => exact (insertSorted_perm le x _).trans (List.Perm.cons x ih)
+
+theorem insertSorted_sorted {φ : Type} (le : φ → φ → Bool) (htot : ∀ a b, le a b = true ∨ le b a = true)
+    (htr : ∀ a b c, le a b = true → le b c = true → le a c = true) (x : φ) (l : List φ)
+    (hl : l.Pairwise (fun a b => le a b = true)) : (insertSorted le x l).Pairwise (fun a b => le a b = true) := by
+  induction l with
+  | nil => simp [insertSorted]
+  | cons y ys ih =>
+    unfold insertSorted
+    rw [List.pairwise_cons] at hl
+    split
+    · rename_i hxy
+      rw [List.pairwise_cons]
+      refine ⟨?_, List.pairwise_cons.mpr hl⟩
+      intro b hb
+      rcases List.mem_cons.mp hb with rfl | hb
+      · exact hxy
+      · exact htr _ _ _ hxy (hl.1 b hb)
+    · rename_i hxy
+      have hyx : le y x = true := by rcases htot x y with h | h; exact absurd h hxy; exact h
+      rw [List.pairwise_cons]
+      refine ⟨?_, ih hl.2⟩
+      intro b hb
+      have := (insertSorted_perm le x ys).mem_iff.mp hb
+      rcases List.mem_cons.mp this with rfl | hb
+      · exact hyx
+      · exact hl.1 b hb
+
+theorem sortFiles_sorted {φ : Type} (le : φ → φ → Bool) (htot : ∀ a b, le a b = true ∨ le b a = true)
+    (htr : ∀ a b c, le a b = true → le b c = true → le a c = true) (l : List φ) :
+    (sortFiles le l).Pairwise (fun a b => le a b = true) := by
+  induction l with
+  | nil => simp [sortFiles]
+  | cons x xs ih => exact insertSorted_sorted le htot htr x _ ih
+
+/-- sorting makes the result independent of the order in which the directory is listed -/
+theorem sortFiles_eq_of_perm {φ : Type} (le : φ → φ → Bool) (htot : ∀ a b, le a b = true ∨ le b a = true)
+    (htr : ∀ a b c, le a b = true → le b c = true → le a c = true)
+    (hanti : ∀ a b, le a b = true → le b a = true → a = b) (l l' : List φ) (h : l.Perm l') :
+    sortFiles le l = sortFiles le l' :=
+  List.Perm.eq_of_pairwise (le := fun a b => le a b = true) (fun a b _ _ => hanti a b)
+    (sortFiles_sorted le htot htr l) (sortFiles_sorted le htot htr l')
+    ((sortFiles_perm le l).trans (h.trans (sortFiles_perm le l').symm))
+
+/-! ### CMRxRecon index map -/
+theorem cmrPairs_length (a b : Nat) : (cmrPairs a b).length = a * b := by
+  unfold cmrPairs
+  induction a with
+  | zero => simp
+  | succ a ih =>
+    rw [List.range_succ, List.flatMap_append, List.length_append, ih]
+    simp [Nat.succ_mul]
+
+/-- the `enumerate` dictionary maps `s` to `(s // b, s % b)` (row-major) -/
+theorem cmrPairs_getElem? (a b s : Nat) (h : s < a * b) : (cmrPairs a b)[s]? = some (s / b, s % b) := by
+  unfold cmrPairs
+  induction a generalizing s with
+  | zero => simp at h
+  | succ a ih =>
+    have hb : 0 < b := by
+      rcases Nat.eq_zero_or_pos b with h0 | h0
+      · subst h0; simp at h
+      · exact h0
+    rw [List.range_succ, List.flatMap_append]
+    have hl : ((List.range a).flatMap fun k => (List.range b).map fun l => (k, l)).length = a * b :=
+      cmrPairs_length a b
+    by_cases hs : s < a * b
+    · rw [List.getElem?_append_left (by rw [hl]; exact hs)]
+      exact ih s hs
+    · rw [List.getElem?_append_right (by rw [hl]; omega), hl]
+      have hlt : s - a * b < b := by rw [Nat.succ_mul] at h; omega
+      simp only [List.flatMap_cons, List.flatMap_nil, List.append_nil, List.getElem?_map,
+        List.getElem?_range hlt, Option.map_some]
+      obtain ⟨r, hr, hrb⟩ : ∃ r, s = b * a + r ∧ r < b := ⟨s - a * b, by rw [Nat.mul_comm b a]; omega, hlt⟩
+      have e : s - a * b = r := by rw [hr, Nat.mul_comm b a]; omega
+      rw [e, hr, Nat.mul_add_div hb, Nat.mul_add_mod, Nat.div_eq_of_lt hrb, Nat.mod_eq_of_lt hrb]
+      simp
 
 
 end DirectVerif.Dataset
